@@ -98,7 +98,7 @@ def rule_x2(ctx, R):
             ok = False
             for j, tt in b.calls():
                 if IS_EXPIRED.match(callee(tt)) and shared.from_dataset(b, tt["a"][0]) and cfg.dominates(b, j, i):
-                    between = cfg.fwd(b, [j]) & cfg.bwd(b, [i])
+                    between = cfg.fwd(b, b.succs(j), cut=[i]) & cfg.bwd(b, b.preds()[i], cut=[j])
                     released = any(b.term(x)["k"] == "call" and re.search(r"RwLock::<storage::engine::DatabaseShard>::(write|read)$", b.term(x)["f"] or "")
                                    for x in between if x != j)
                     if not released:
